@@ -105,6 +105,7 @@ func c20Build(rng *fw.RNG) *c20Pool {
 	c11Init()
 	p := &c20Pool{}
 	objN := 0
+	poolCfg := &traversal.Config{}
 	add := func(kind string, obj int, f func() uint64) { p.ops = append(p.ops, c20Op{kind, obj, f}) }
 	nodeOps := func(n datamodel.Node, typed bool) {
 		obj := objN
@@ -131,7 +132,7 @@ func c20Build(rng *fw.RNG) *c20Pool {
 		})
 		add("walk", obj, func() uint64 {
 			h := uint64(0)
-			cfgShared := sharedCfg
+			cfgShared := poolCfg
 			traversal.Progress{Cfg: cfgShared}.WalkAdv(n, c11ExploreAll, func(pg traversal.Progress, x datamodel.Node, r traversal.VisitReason) error {
 				h = fw.Mix(h, fw.HashString(pg.Path.String()), uint64(x.Kind()), uint64(r))
 				return nil
@@ -418,7 +419,9 @@ func c20Init() {
 	c20TS = ts
 }
 
-var sharedCfg = &traversal.Config{} // shared by every walk of every goroutine, defaults left nil on purpose
+// (the traversal.Config shared by every walk of every goroutine, defaults left nil on purpose, is made afresh
+// for every pool: a library that fills defaults into the caller's Config does so once per Config, so a
+// process-wide one would be written — and the write be observable — only in the first pool of a process)
 
 func (c20) RunCase(c *fw.Ctx, rng *fw.RNG, batch, i int) {
 	pool := c20Build(rng)
@@ -487,7 +490,7 @@ func (c20) RunCase(c *fw.Ctx, rng *fw.RNG, batch, i int) {
 	for g := range seeds {
 		seeds[g] = rng.U64()
 	}
-	var nops int64
+	var nops, firstUseOps int64
 	var hot []int
 	hotObjs := map[int]bool{pool.lazyObj: true}
 	if pool.freshObj >= 0 {
@@ -501,12 +504,45 @@ func (c20) RunCase(c *fw.Ctx, rng *fw.RNG, batch, i int) {
 			hot = append(hot, k)
 		}
 	}
+	// Cold mode, phase 0: for a sample of operations — every walk, load, bind and build operation (their shared
+	// objects are configured link systems, traversal configs, prototypes and type systems) and a few others — ALL
+	// goroutines make the FIRST use together, released by a spinning barrier per operation. State that is filled
+	// in on first use is written by one goroutine while the others read or write it too: without the barrier
+	// that coincidence is luck, and on a loaded machine rare (seed C20-5 went unreported in one run out of two).
+	var firstUse []int
+	if cold {
+		for k, op := range pool.ops {
+			if op.kind == "walk" || op.kind == "load" || op.kind == "bind" || op.kind == "build" || rng.Chance(1, 6) {
+				firstUse = append(firstUse, k)
+			}
+		}
+		if len(firstUse) > 40 {
+			rng.Shuffle(len(firstUse), func(i, j int) { firstUse[i], firstUse[j] = firstUse[j], firstUse[i] })
+			firstUse = firstUse[:40]
+		}
+	}
+	arrive := make([]int32, len(firstUse))
 	for g := 0; g < G; g++ {
 		wg.Add(1)
 		go func(g int) {
 			defer wg.Done()
 			r := fw.NewRNG(seeds[g])
 			<-start
+			for fi, k := range firstUse {
+				atomic.AddInt32(&arrive[fi], 1)
+				for atomic.LoadInt32(&arrive[fi]) < int32(G) {
+					runtime.Gosched()
+				}
+				op := pool.ops[k]
+				atomic.AddInt32(&inflight[op.obj][kidx[op.kind]], 1)
+				got := op.f()
+				atomic.AddInt32(&inflight[op.obj][kidx[op.kind]], -1)
+				atomic.AddInt64(&nops, 1)
+				atomic.AddInt64(&firstUseOps, 1)
+				coldMu.Lock()
+				gotCold[k] = append(gotCold[k], got)
+				coldMu.Unlock()
+			}
 			for n := 0; n < 80; n++ {
 				k := r.Intn(len(pool.ops))
 				if n < len(hot) {
@@ -553,6 +589,7 @@ func (c20) RunCase(c *fw.Ctx, rng *fw.RNG, batch, i int) {
 			}
 		}
 	}
+	c.Count("simultaneous_first_uses", firstUseOps)
 	c.Count("goroutines_started", int64(G))
 	c.Count("concurrent_ops", nops)
 	c.Count("digest_comparisons", nops)
